@@ -1,6 +1,7 @@
 SPECIFICATION Spec
 CONSTANTS MaxVersion = 2
  MaxFaults = 0
+  ClaimFirst = TRUE
  SilentRace = FALSE
 INVARIANT LoadWhole
 CHECK_DEADLOCK FALSE
